@@ -1604,9 +1604,55 @@ func (c *boundsCtx) boundSitesOf() []boundSite {
 				e = "implicit-slice"
 			}
 			out = append(out, boundSite{"slice", in, e})
+		case *ssa.Call:
+			// strings.Repeat / bytes.Repeat panic on a negative count
+			rf := refOf(x.Common())
+			// copy(dst, src) silently stops at len(dst): a destination not known to be long enough
+			// truncates the data
+			if b, isB := x.Call.Value.(*ssa.Builtin); isB && b.Name() == "copy" && len(x.Call.Args) == 2 {
+				if x.Call.Args[0] == x.Call.Args[1] {
+					return
+				}
+				e := c.p.exprAt(fn, x.Pos(), func(n ast.Node) bool { _, ok := n.(*ast.CallExpr); return ok })
+				if e == "" {
+					e = "copy"
+				}
+				out = append(out, boundSite{"copy", in, e})
+				return
+			}
+			if (rf.is("strings", "", "Repeat") || rf.is("bytes", "", "Repeat")) && len(x.Call.Args) == 2 {
+				if k, isK := constInt(x.Call.Args[1]); isK && k >= 0 {
+					return
+				}
+				e := c.p.exprAt(fn, x.Pos(), func(n ast.Node) bool { _, ok := n.(*ast.CallExpr); return ok })
+				if e == "" {
+					e = "Repeat:" + showTerm(c.termOf(x.Call.Args[1]))
+				}
+				out = append(out, boundSite{"count", in, e})
+			}
+		case *ssa.MakeSlice:
+			// make panics on a negative length
+			if k, isK := constInt(x.Len); isK && k >= 0 {
+				return
+			}
+			e := c.p.exprAt(fn, x.Pos(), func(n ast.Node) bool { _, ok := n.(*ast.CallExpr); return ok })
+			if e == "" {
+				e = "make:" + showTerm(c.termOf(x.Len))
+			}
+			out = append(out, boundSite{"count", in, e})
 		}
 	})
 	return out
+}
+
+// proveNonNeg: 0 <= v at the instruction.
+func (c *boundsCtx) proveNonNeg(at ssa.Instruction, v ssa.Value) (bool, string) {
+	g := c.graphFor(at, v)
+	t := c.termOf(v)
+	if g.le(term{zeroSym, 0}, t) {
+		return true, "0 <= " + showTerm(t)
+	}
+	return false, "cannot show " + showTerm(t) + " >= 0"
 }
 
 func (c *boundsCtx) arrayConstIndex(x, idx ssa.Value) bool {
@@ -1645,6 +1691,20 @@ func checkBounds(p *Prog, r *Report, rule string, fn *ssa.Function, audited map[
 			ok, why = c.proveIndex(s.in, x.X, x.Index)
 		case *ssa.Slice:
 			ok, why = c.proveSlice(s.in, x)
+		case *ssa.Call:
+			if s.kind == "copy" {
+				g := c.graphFor(s.in, x.Call.Args[0], x.Call.Args[1])
+				src, dst := c.lenTerm(x.Call.Args[1]), c.lenTerm(x.Call.Args[0])
+				if g.le(src, dst) {
+					ok, why = true, showTerm(src)+" <= "+showTerm(dst)
+				} else {
+					ok, why = false, "cannot show "+showTerm(src)+" <= "+showTerm(dst)+": copy stops at the end of the destination and the rest of the source is silently dropped"
+				}
+				break
+			}
+			ok, why = c.proveNonNeg(s.in, x.Call.Args[1])
+		case *ssa.MakeSlice:
+			ok, why = c.proveNonNeg(s.in, x.Len)
 		}
 		pos := p.Pos(s.in.Pos())
 		if ok {
